@@ -38,6 +38,9 @@ type reqTrack struct {
 	settledH int64
 	gone     bool // all records seen removed
 	k3       bool
+	// the designated provider sent a stateless-valid response while the request was pending and in time, and it
+	// was REJECTED (C08 reports that); if the request is later settled by the expiry, C02 reports the wrong party
+	refusedInTime int64 // height of the refusal, 0 = none
 }
 
 type relState struct {
@@ -351,6 +354,9 @@ func (m *Monitors) c02(o *Op, res string, f *stepFacts, pre *Pre, s *Snap, bal m
 			}
 		case f.isEB:
 			t.settled = "refund-expired"
+			if t.refusedInTime > 0 {
+				m.fail("C02", "%srequest %s is settled by expiry (refund to the consumer, slash of the provider) although its provider answered in time at height %d and was refused", tag, ridLine([]byte(rid)), t.refusedInTime)
+			}
 			if f.H != t.exp {
 				m.fail("C02", "%srequest %s expired in the EndBlock of %d, its expiry block is %d", tag, ridLine([]byte(rid)), f.H, t.exp)
 			}
@@ -1097,6 +1103,9 @@ func (m *Monitors) c08respond(o *Op, res string, f *stepFacts, pre *Pre, s *Snap
 		}
 		if (res == "ok") != want {
 			m.fail("C08", "%sresponse %s at height %d (%s) -> %s", tag, ridLine([]byte(rid)), f.H, why, res)
+			if want && res == "err" && t != nil && o.OutValid {
+				t.refusedInTime = f.H
+			}
 		}
 		if res == "panic" {
 			m.fail("C08", "%sresponse %s panicked", tag, ridLine([]byte(rid)))
@@ -1591,6 +1600,25 @@ func (m *Monitors) c16finished(f *stepFacts, pre *Pre, s *Snap) {
 		if _, still := s.Ctxs[e.ID]; finished && still {
 			m.fail("C16", "%scontext %s (state %v, repeated %v, batch %d of %d) has finished and is still stored after its batch's expiry block %d", m.tagCtx(e.ID),
 				ctxLine([]byte(e.ID)), x.State, x.Repeated, x.BatchCounter, x.RepeatedTotal, f.H)
+		}
+	}
+	// a running repeated context whose positive total is reached and that has no batch in flight (it was paused
+	// during its last batch and started after the expiry) has finished too: the block that follows the start ends it
+	for id, x := range pre.snap.Ctxs {
+		if _, inFlight := pre.snap.ExpH[id]; inFlight {
+			continue
+		}
+		// (if its next-batch event is queued for a LATER height - scheduled before the total was lowered by an
+		// update - that later block ends it; with the event due now, or with no event at all, this block must)
+		if h, queued := pre.snap.NewH[id]; queued && h > f.H {
+			continue
+		}
+		if x.State == types.RUNNING && x.Repeated && x.RepeatedTotal > 0 && int64(x.BatchCounter) >= x.RepeatedTotal {
+			m.evals["C16.fin"]++
+			if _, still := s.Ctxs[id]; still {
+				m.fail("C16", "%scontext %s is running with its total reached (batch %d of %d) and no batch in flight, and is still stored after the EndBlock of height %d",
+					m.tagCtx(id), ctxLine([]byte(id)), x.BatchCounter, x.RepeatedTotal, f.H)
+			}
 		}
 	}
 }
